@@ -2,6 +2,7 @@ package exec
 
 import (
 	"fmt"
+	"math"
 	"go/types"
 	"strings"
 
@@ -198,6 +199,7 @@ func init() {
 		ex.note(mustStr(a[0]))
 		return nil
 	})
+	v("NaN", func(ex *Exec, c *frame, fn *ssa.Function, a []Value) Value { return math.NaN() })
 	v("IsNaN", func(ex *Exec, c *frame, fn *ssa.Function, a []Value) Value {
 		switch x := a[0].(type) {
 		case float64:
